@@ -1,12 +1,13 @@
 #!/bin/bash
 # try_seed.sh <ID> [tier] [patchdir] — run the CURRENT /verif (synced to a scratch copy) against a checkout with a seeded change applied.
 ID="$1"; TIER="${2:-quick}"; SRC="${3:-/tmp/seed/out/$ID}"
-R=/tmp/seed/repo3; V=/tmp/seed/verif3
+R=${TRY_REPO:-/tmp/seed/repo3}; V=${TRY_VERIF:-/tmp/seed/verif3}
 rsync -a --delete --exclude .git --exclude .build --exclude replays --exclude evidence /verif/ $V/
 git -C $R checkout -q -- . ; git -C $R clean -fdq
+git -C $R checkout -q --detach $(git -C /repo rev-parse HEAD)   # always the current /repo HEAD
 if [ -s $SRC/patch.diff ]; then (cd $R && git apply $SRC/patch.diff) || exit 4; fi
-cd $V && VERIF_REPO=$R ./check $ID $TIER > /tmp/seed/try_$ID.log 2>&1; rc=$?
+cd $V && VERIF_REPO=$R ./check $ID $TIER > ${TRY_LOG:-/tmp/seed/try_$ID.log} 2>&1; rc=$?
 git -C $R checkout -q -- . ; git -C $R clean -fdq
-echo "exit=$rc violations=$(grep -c '^VIOLATION' /tmp/seed/try_$ID.log)"
-grep "^  class=" /tmp/seed/try_$ID.log | sed 's/^  class=\([^ ]*\) .*/\1/' | sort | uniq -c | head -6
-tail -3 /tmp/seed/try_$ID.log | cut -c1-200
+echo "exit=$rc violations=$(grep -c '^VIOLATION' ${TRY_LOG:-/tmp/seed/try_$ID.log})"
+grep "^  class=" ${TRY_LOG:-/tmp/seed/try_$ID.log} | sed 's/^  class=\([^ ]*\) .*/\1/' | sort | uniq -c | head -6
+tail -3 ${TRY_LOG:-/tmp/seed/try_$ID.log} | cut -c1-200
